@@ -695,6 +695,7 @@ func C13(tier string) int {
 
 	// ---- the entity-level write path: every PersistContext setter under every selection
 	c13PersistContext(rep)
+	c13BaseValues(rep)
 
 	// ---- field checkers: a restricted write touches only the selected fields
 	fields := []string{"s", "i", "t", "l"}
